@@ -73,6 +73,23 @@ def mon_key(m):
     return "other"
 
 
+def concurrent_users(ctx):
+    """the same clause with the handle used as the node uses it (the processor stores, every gRPC request looks up, relayers poll an identifier before it is
+    stored): a lookup that starts after StoreSignedVAA has returned finds that VAA (harness shared with C12: TestVerifC12Conc)"""
+    rc, out, trace = core.harness_pkg(ctx, "db", "^TestVerifC12Conc$", timeout=1200)
+    rows = [r for r in core.read_jsonl(trace) if r.get("k") == "c12conc"]
+    if rc != 0 or not rows:
+        ctx.problem("correspondence", "go harness C16 (concurrent users of one handle)", out[-1500:])
+        return
+    r = rows[0]
+    ctx.cov["concurrent_users"] = {k: v for k, v in r.items() if k not in ("k", "mon")}
+    for m in r.get("mon") or []:
+        if "had returned success" in m or "after the concurrent phase" in m:
+            ctx.problem("monitor", m, "observed on the real store (%d writers, %d readers, one handle)" % (r.get("writers", 0), r.get("readers", 0)), concrete=True,
+                        replay={"monitor": m, "test": "TestVerifC12Conc", "seed": ctx.seed}, key="conc:acknowledged-store-not-found")
+            return
+
+
 def live_handle(ctx):
     """the clause without a kill: every lookup after an acknowledged store returns that VAA intact (lookups before the first store, overwrites, sizes across
     badger's 1 MiB value-log threshold, clean re-opens), judged against the harness's own record"""
@@ -85,7 +102,7 @@ def live_handle(ctx):
     ctx.cov["live_handle"] = {k: v for k, v in r.items() if k not in ("k", "mon")}
     seen = set()
     for m in r.get("mon") or []:
-        k = "live:" + ("never-stored" if "never stored" in m else "differs" if "differ" in m else "lost" if "had returned success" in m else "other")
+        k = "live:" + ("batch" if "batch lookup" in m else "never-stored" if "never stored" in m else "differs" if "differ" in m else "lost" if "had returned success" in m else "other")
         if k in seen:
             continue
         seen.add(k)
@@ -98,6 +115,7 @@ def run(ctx):
     if ctx.tier == "thorough":
         core.coq_thorough_audit(ctx, "C16")
     live_handle(ctx)
+    concurrent_users(ctx)
     rc, out, trace = core.harness_pkg(ctx, "db", "^TestVerifC16$", timeout=3000)
     rows = core.read_jsonl(trace)
     cyc = [r for r in rows if r.get("k") == "cycle"]
